@@ -514,14 +514,14 @@ V("C15", "C15.R3", "c15-default-args-unconditional", "shroud/generate.py",
   "new.wrap.assign(c=node.wrap.c, fortran=node.wrap.fortran)",
   "new.wrap.assign(c=True, fortran=True)", "fire", "has_default_args")
 V("C15", "C15.R3", "c15-bufferify-guard-removed", "shroud/generate.py",
-  '''        if node.wrap.fortran is False:
+  '''        if not node.wrap.fortran:
             # The buffer function is intended to be called by Fortran.
             # No Fortran, no need for buffer function.
             return
-        if options.F_string_len_trim is False:''',
-  '''        if options.F_string_len_trim is False:''', "fire", "result_as_arg")
+        if not options.F_string_len_trim:''',
+  '''        if not options.F_string_len_trim:''', "fire", "result_as_arg")
 V("C15", "C15.R3", "c15-bufferify-both-guards-removed", "shroud/generate.py",
-  '''        if node.wrap.c is False:
+  '''        if not node.wrap.c:
             # The user does not require a C wrapper.
             # This can be the case if the Fortran wrapper is doing all
             # the work via splicer or fstatements.
@@ -1150,7 +1150,7 @@ V("C08", "C08.R3", "c08-overload-ignores-explicit", "shroud/generate.py",
                         function.fmtdict.function_suffix = "_{}".format(i)''', "fire", "explicit-wins")
 V("C08", "C08.R3", "c08-generic-counter-stuck", "shroud/ast.py",
   "            isuffix += 1\n        ddct[\"fortran_generic\"] = newlst",
-  "        ddct[\"fortran_generic\"] = newlst", "fire", "fortran_generic-counter")
+  "        ddct[\"fortran_generic\"] = newlst", "fire", "ast.clean_dictionary:")
 V("C08", "C08.R4", "c08-generic-lists-function-name", "shroud/wrapf.py",
   '''                    for node in generics:
                         iface.append("module procedure " + node.fmtdict.F_name_impl)
@@ -1254,9 +1254,14 @@ V("C10", "C10.R5", "c10-ftrim-no-nul", "shroud/wrapf.py",
   'arg_c_call.append("trim({})//C_NULL_CHAR".format(f_arg.name))',
   'arg_c_call.append("trim({})".format(f_arg.name))', "fire", "ftrim")
 V("C10", "C10.R5", "c10-ftrim-for-inout", "shroud/generate.py",
-  '''            options.F_CFI is False and
+  '''            not options.F_CFI and
             intent == "in" and''',
-  '''            options.F_CFI is False and''', "fire", "ftrim-guard")
+  '''            not options.F_CFI and''', "fire", "ftrim-guard")
+V("C10", "C10.R5", "c10-ftrim-guard-respelled", "shroud/generate.py",
+  '''            not options.F_CFI and
+            intent == "in" and''',
+  '''            options.F_CFI == False and
+            intent == "in" and''', "silent")
 V("C10", "C10.R6", "c10-allocatable-wrong-len", "shroud/statements.py",
   '''        name="f_char_scalar/*_result_buf_allocatable",
         need_wrapper=True,
@@ -1928,9 +1933,10 @@ V("C16", "C16.R1", "c16-brief-written-whole", "shroud/util.py",
   '''            output.append(self.doxygen_cont + " \\\\brief %s" % docs["brief"])''', "fire", "brief-lines")
 V("C16", "C16.R1", "c16-helper-appends-whole-text", "shroud/util.py",
   '''        for line in lines:
-            output.append(self.doxygen_cont + " " + tag + line)
+            # "@": the text is the user's, a + at its end is not a directive.
+            output.append("@" + self.doxygen_cont + " " + tag + line)
             tag = ""''',
-  '''        output.append(self.doxygen_cont + " " + tag + str(text))''', "fire", "lines")
+  '''        output.append("@" + self.doxygen_cont + " " + tag + str(text))''', "fire", "lines")
 V("C16", "C16.R1", "c16-silent-splitlines", "shroud/util.py",
   '''        lines = str(text).expandtabs().split("\\n")
         if lines[-1] == "" and (len(lines) > 1 or not tag):
@@ -2108,10 +2114,8 @@ V("C12", "C12.R6", "c12-user-code-tabs-kept", "shroud/util.py",
   '''            out.extend(self._user_code(force))''',
   '''            out.extend(force)''', "fire", "tabs")
 V("C12", "C12.R6", "c12-tab-filter-strips", "shroud/util.py",
-  '''        return [line.expandtabs() if isinstance(line, str) else line
-                for line in lines]''',
-  '''        return [line.expandtabs().strip() if isinstance(line, str) else line
-                for line in lines]''', "fire", "")
+  '''                for subline in line.expandtabs().split("\\n"):''',
+  '''                for subline in line.expandtabs().strip().split("\\n"):''', "fire", "")
 V("C16", "C16.R1", "c16-doxygen-tabs-kept", "shroud/util.py",
   '''        lines = str(text).expandtabs().split("\\n")''',
   '''        lines = str(text).split("\\n")''', "fire", "tabs-of-text")
@@ -2121,3 +2125,101 @@ V("C17", "C17.R15", "c17-helper-lookup-unchecked", "shroud/wrapf.py",
                     "No Fortran helper '{}': the type is not supported "
                     "by the statements '{}'".format(helper, helpers))
 ''', '', "fire", "FHelpers")
+
+
+# ---------------------------------------------------------------------------
+# rows 103-121
+# ---------------------------------------------------------------------------
+V("C12", "C12.R6", "c12-user-code-not-literal", "shroud/util.py",
+  '''                for subline in line.expandtabs().split("\\n"):
+                    if subline and subline[0] != "#":
+                        subline = "@" + subline
+                    out.append(subline)''',
+  '''                for subline in line.expandtabs().split("\\n"):
+                    out.append(subline)''', "fire", "write_lines:default:subline[:-1]")
+V("C12", "C12.R6", "c12-user-code-marks-fewer-lines", "shroud/util.py",
+  '''                    if subline and subline[0] != "#":
+                        subline = "@" + subline''',
+  '''                    if subline and subline[0] not in "#/":
+                        subline = "@" + subline''', "fire", "write_lines:default:subline[:-1]")
+V("C12", "C12.R6", "c12-doxygen-text-not-literal", "shroud/util.py",
+  '''            output.append("@" + self.doxygen_cont + " " + tag + line)''',
+  '''            output.append(self.doxygen_cont + " " + tag + line)''', "fire", "write_lines:default:subline[:-1]")
+V("C12", "C12.R6", "c12-user-code-loop-variable-renamed", "shroud/util.py",
+  '''                for subline in line.expandtabs().split("\\n"):
+                    if subline and subline[0] != "#":
+                        subline = "@" + subline
+                    out.append(subline)''',
+  '''                for piece in line.expandtabs().split("\\n"):
+                    if piece and piece[0] != "#":
+                        piece = "@" + piece
+                    out.append(piece)''', "silent", None)
+V("C03", "C03.R6", "c03-dispatch-counts-all-parameters", "shroud/wrapp.py",
+  '''                        "if (SHT_nargs == %d) {+" % py_count_args(params)''',
+  '''                        "if (SHT_nargs == %d) {+" % len(params)''', "fire", "multi_dispatch:arity")
+V("C03", "C03.R6", "c03-dispatch-count-ignores-hidden", "shroud/wrapp.py",
+  '''        if arg.attrs["implied"] or arg.attrs["hidden"]:
+            continue
+        if arg.metaattrs["intent"] in ["in", "inout"]:
+            nargs += 1
+    return nargs''',
+  '''        if arg.attrs["implied"]:
+            continue
+        if arg.metaattrs["intent"] in ["in", "inout"]:
+            nargs += 1
+    return nargs''', "fire", "multi_dispatch:arity")
+
+
+def RV(prop, rule, vid, sha, construct=""):
+    """the reverse of a repair commit of /repo (selftest/reverts/<sha>.diff, written when the repair was recorded):
+    the defect is back, the rule written for it must report it"""
+    import os
+    from selftest.harness import _hunks
+    with open(os.path.join(os.path.dirname(os.path.abspath(__file__)), "reverts", sha + ".diff")) as fp:
+        edits = _hunks(fp.read())
+    VARIANTS.append(dict(property=prop, rule=rule, id=vid, edits=edits, expect="fire", construct=construct))
+
+
+RV("C17", "C17.R16", "c17-namespace-variables-unchecked", "3849328", "node.variables")
+RV("C05", "C05.R18", "c05-destructor-file-misses-type-header", "d5e84ac", "add_capsule_code")
+RV("C18", "C18.R9", "c18-unnamed-state-parameter-in-c", "14aabbc", "unnamed-state-parameter")
+RV("C15", "C15.G1", "c15-identity-test-on-flags", "c3b6f5b", "identity-test-on-option")
+RV("C13", "C13.R7", "c13-enumerator-line-without-hints", "5d811b3", "parameter-line")
+RV("C05", "C05.R22", "c05-submodule-file-misses-declarations", "fa70a1b", "")
+RV("C17", "C17.G1", "c17-default-order-flag-never-set", "d704c79", "dead-validation-flag")
+RV("C17", "C17.R13", "c17-patterns-group-unchecked", "7c19f76", "patterns")
+RV("C17", "C17.R11", "c17-void-parameter-accepted", "333dcc6", "")
+RV("C17", "C17.R11", "c17-empty-template-argument-list", "abf1602", "")
+RV("C14", "C14.G1", "c14-attrs-after-generic-copies", "de62eb2", "snapshot-before-update")
+RV("C18", "C18.R10", "c18-state-name-hard-coded", "526f4ec", "state-argument")
+RV("C08", "C08.R3", "c08-generic-default-suffix-repeats", "befaf7a", "")
+V("C14", "C14.R13", "c14-enum-format-dropped-2", "shroud/ast.py",
+  '''        if format:
+            fmt_enum.update(format, replace=True)
+''', '', "fire", "EnumNode.__init__:format")
+V("C14", "C14.R13", "c14-variable-format-dropped-2", "shroud/ast.py",
+  '''        if format:
+            fmt_var.update(format, replace=True)
+''', '', "fire", "VariableNode.__init__:format")
+V("C14", "C14.R10", "c14-enum-format-before-defaults", "shroud/ast.py",
+  '''        self.fmtdict = util.Scope(parent=parent.fmtdict)
+
+        if not decl:
+            raise RuntimeError("EnumNode missing decl")''',
+  '''        self.fmtdict = util.Scope(parent=parent.fmtdict)
+        if format:
+            self.fmtdict.update(format, replace=True)
+            format = None
+
+        if not decl:
+            raise RuntimeError("EnumNode missing decl")''', "fire", "EnumNode.__init__:format-last")
+V("C14", "C14.R13", "c14-typedef-format-dropped", "shroud/ast.py",
+  '''        self.fmtdict = util.Scope(parent=parent.fmtdict)
+        if format:
+            self.fmtdict.update(format, replace=True)
+
+        self.ast = ast
+''', '''        self.fmtdict = util.Scope(parent=parent.fmtdict)
+
+        self.ast = ast
+''', "fire", "TypedefNode.__init__:format")
